@@ -37,6 +37,7 @@ class Effects:
         self.crash_at: tuple[int, str] | None = None
         self.active = False
         self.on_effect: Callable[[], None] | None = None
+        self.raised: set[int] = set()
 
     def wrap(self, obj: Any, attr: str, name: Callable[..., str]) -> None:
         orig = getattr(obj, attr)
@@ -51,7 +52,11 @@ class Effects:
             if fx.crash_at == (idx, "before"):
                 fx.active = False
                 raise Crash(f"before #{idx} {nm}")
-            r = orig(*a, **k)
+            try:
+                r = orig(*a, **k)
+            except Exception:
+                fx.raised.add(idx)  # the effect was refused (e.g. a status change that is not allowed): nothing happened
+                raise
             if fx.on_effect is not None:
                 fx.on_effect()
             if fx.crash_at == (idx, "after"):
@@ -81,13 +86,16 @@ class Effects:
 class W:
     """client / victim / survivor processes on one backend."""
 
-    def __init__(self, backend: str, mode: str = "DISABLED", reroute: bool = True, max_retries: int = 2) -> None:
+    def __init__(self, backend: str, mode: str = "DISABLED", reroute: bool = True, max_retries: int = 2,
+                 runner_cls: str | None = None) -> None:
         from pynenc.conf.config_task import ConcurrencyControlType as CC
 
         env.reset_world()
         tasks.HOOKS.clear()
         self.backend = backend
         conf = dict(max_pending_seconds=5.0, runner_considered_dead_after_minutes=10.0, cached_status_time=0.0)
+        if runner_cls:
+            conf["runner_cls"] = runner_cls
         if backend == env.MEM:
             app = env.make_app(env.MEM, app_id="c03", **conf)
             self.client = self.victim = self.survivor = app
@@ -100,8 +108,10 @@ class W:
         if mode != "DISABLED":
             opts.update(running_concurrency=CC[mode], reroute_on_concurrency_control=reroute)
         self.t = {}
+        self.t2 = {}
         for a in {id(x): x for x in (self.client, self.victim, self.survivor)}.values():
             self.t[id(a)] = (tasks.bind(a, tasks.scripted, **opts))
+            self.t2[id(a)] = tasks.bind(a, tasks.add)  # a second, unrestricted task
         self.done: dict[str, int] = {}
         self.script: dict[str, list] = {}
         tasks.HOOKS["script"] = self._script
@@ -283,6 +293,135 @@ def sc_kill_reroute(w: W) -> Callable[[], None]:
     return lambda: r._kill_and_reroute(inv.invocation_id)
 
 
+class _StopAfter:
+    """stop_event stand-in of a worker loop: lets the loop run n iterations."""
+
+    def __init__(self, n: int) -> None:
+        self.n = n
+
+    def is_set(self) -> bool:
+        self.n -= 1
+        return self.n < 0
+
+    def set(self) -> None:
+        self.n = 0
+
+
+class _NoSignals:
+    SIGTERM, SIG_IGN = 15, 1
+
+    @staticmethod
+    def signal(*a: Any) -> None:
+        return None
+
+
+def sc_ppr_worker_cc(w: W) -> Callable[[], None]:
+    """The real worker main of the PersistentProcessRunner (its poll-and-run loop, two iterations) meets a
+    concurrency-controlled invocation in front of a runnable one: a is RUNNING under r9 (alive), the queue holds
+    b (same task: blocked, to be re-queued) and an invocation of another task."""
+    import pynenc.runner.persistent_process_runner as ppr
+    from pynenc.invocation.status import InvocationStatus as S
+
+    a = str(w.task(w.client)("a", 1).invocation_id)
+    _claim(w, w.client, "r9", 1)
+    w.client.orchestrator.set_invocation_status(a, S.RUNNING, runner_ctx("r9"))
+    w.client.orchestrator.register_runner_heartbeats(["r9"])
+    b = str(w.task(w.client)("b", 2).invocation_id)
+    w.t2[id(w.client)](3, 4)
+    w.accepted += [a, b]
+    victim = w.victim
+    runner = victim.runner
+    orig_kill = runner._kill_and_reroute
+
+    def no_cleanup_after_death(*args: Any, **kw: Any) -> Any:
+        if w.fx.crash_at is not None and not w.fx.active:
+            raise Crash("the process is gone: its shutdown clean-up does not run")
+        return orig_kill(*args, **kw)
+
+    runner._kill_and_reroute = no_cleanup_after_death
+
+    def op() -> None:
+        keep = ppr.signal
+        ppr.signal = _NoSignals  # no handler is installed in the exploring process
+        try:
+            ppr.persistent_process_main(victim, runner_cache={}, stop_event=_StopAfter(2),
+                                        parent_runner_ctx_json=runner_ctx("r1-parent", "PersistentProcessRunner").to_json(),
+                                        child_runner_id="r1")
+        finally:
+            ppr.signal = keep
+    return op
+
+
+class _InlineProcess:
+    """Process stand-in for the ProcessRunner loop: start() executes the child's entry point inline."""
+
+    def __init__(self, group: Any = None, target: Any = None, name: Any = None, args: tuple = (), kwargs: dict | None = None,
+                 *, daemon: Any = None) -> None:
+        self.target, self.args, self.kwargs = target, args, kwargs or {}
+        self.pid: int | None = None
+        self.exitcode: int | None = None
+
+    def start(self) -> None:
+        self.pid = 424242
+        try:
+            self.target(*self.args, **self.kwargs)
+            self.exitcode = 0
+        except Crash:
+            raise
+        except Exception:  # noqa: BLE001 - a failing body ends the child process, the parent only sees the exit
+            self.exitcode = 1
+
+    def is_alive(self) -> bool:
+        return False
+
+    def join(self, timeout: Any = None) -> None:
+        return None
+
+    def close(self) -> None:
+        return None
+
+    kill = terminate = close
+
+
+class _PlainManager:
+    def dict(self) -> dict:
+        return {}
+
+    def shutdown(self) -> None:
+        return None
+
+
+def sc_process_runner_cc(w: W) -> Callable[[], None]:
+    """Two real loop iterations of the ProcessRunner (one slot) over the same queue as 'ppr-worker-cc'; the
+    operating-system process is a stand-in that runs the child's entry point inline."""
+    import pynenc.runner.process_runner as pr
+    from pynenc.invocation.status import InvocationStatus as S
+
+    a = str(w.task(w.client)("a", 1).invocation_id)
+    _claim(w, w.client, "r9", 1)
+    w.client.orchestrator.set_invocation_status(a, S.RUNNING, runner_ctx("r9"))
+    w.client.orchestrator.register_runner_heartbeats(["r9"])
+    b = str(w.task(w.client)("b", 2).invocation_id)
+    w.t2[id(w.client)](3, 4)
+    w.accepted += [a, b]
+    victim = w.victim
+
+    def op() -> None:
+        from pynenc import context
+
+        keep = (pr.Process, pr.Manager, pr.cpu_count)
+        pr.Process, pr.Manager, pr.cpu_count = _InlineProcess, _PlainManager, (lambda: 1)
+        try:
+            runner = victim.runner
+            context.set_current_runner(victim.app_id, runner)
+            runner._on_start()
+            for _ in range(2):
+                runner.runner_loop_iteration()
+        finally:
+            pr.Process, pr.Manager, pr.cpu_count = keep
+    return op
+
+
 def _recovery(w: W, which: str) -> Callable[[], None]:
     from pynenc import context, core_tasks
     from pynenc.invocation.status import InvocationStatus as S
@@ -316,6 +455,8 @@ SCENARIOS: dict[str, tuple] = {
     "run-retry": (sc_run_retry, {}),
     "cc-reroute": (sc_cc_reroute, dict(mode="TASK", reroute=True)),
     "kill-reroute": (sc_kill_reroute, {}),
+    "ppr-worker-cc": (sc_ppr_worker_cc, dict(mode="TASK", reroute=True, runner_cls="PersistentProcessRunner")),
+    "process-runner-cc": (sc_process_runner_cc, dict(mode="TASK", reroute=True, runner_cls="ProcessRunner")),
     "recover-pending": (lambda w: _recovery(w, "pending"), {}),
     "recover-running": (lambda w: _recovery(w, "running"), {}),
 }
@@ -346,7 +487,7 @@ def one_run(scn: str, backend: str, crash: tuple[int, str] | None) -> dict:
     for i in w.accepted:
         inv = w.survivor.state_backend.get_invocation(i)
         names[i] = inv.arguments.kwargs["name"]
-    return dict(trace=trace, crashed=crashed, at_crash=at_crash, end=end, done=dict(w.done), names=names,
+    return dict(trace=trace, crashed=crashed, at_crash=at_crash, end=end, done=dict(w.done), names=names, refused=set(w.fx.raised),
                 expect_failed=w.expect_failed, accepted=list(w.accepted))
 
 
@@ -412,6 +553,8 @@ def _unit(item: tuple) -> Partial:
     n = len(ref["trace"])
     for k in range(n):
         for when in ("before", "after"):
+            if when == "after" and k in ref["refused"]:
+                continue  # a refused effect has no "after": the call raised instead of returning
             res = one_run(scn, backend, (k, when))
             if res["crashed"] is None or res["trace"][: k + 1] != ref["trace"][: k + 1]:
                 raise RuntimeError(f"crash run diverged from the fault-free effect trace: {scn}/{backend} {k} {when}")
@@ -464,6 +607,7 @@ class Scn:
                                   if hasattr(w.survivor.conf, "sqlite_db_path") else w.survivor.orchestrator.sqlite_db_path,
                                   max_pending_seconds=5.0, runner_considered_dead_after_minutes=10.0, cached_status_time=0.0)
             w.t[id(second)] = tasks.bind(second, tasks.scripted, **_opts(kw))
+            w.t2[id(second)] = tasks.bind(second, tasks.add)
         else:
             second = w.survivor
         apps = [w.survivor, second]
